@@ -5,7 +5,7 @@ from .C01 import cmp_obs, spec_obs
 SPEC = dict(
     manifest=dict(
         category='proof',
-        text="Lean proves (Proofs/CellSpec.lean, 750 lines) that for every spec-valid tree with pruned branches of any mask 1..7, library cells, Merkle proofs/updates in any nesting, the model of the constructor succeeds and reports exactly the spec's level mask and per-level hash/depth at every level (loop invariant over calculate_hashes vs. level recursion of the spec); pruning invariance is proved for ALL Merkle depths (Proofs/Prune.lean, c02_prune_invariant_spec / c02_prune_invariant): if t' is t with any set of subtrees replaced by pruned branches of mask (mask s % 2^(d-1)) | 2^(d-1) carrying hashAt/depthAt s l for the significant l < d (d grows by one under every Merkle cell), then for every l < d hash, depth and the mask bits below l of t' are those of t (d = 1: the level-0 hash of every enclosing cell is unchanged), with no assumption on the hash function; at model level (Cell.info) under spec-validity of both trees; and it is tested through the library. Tie: correspondence library = model = Lean spec = independent Python spec on generated exotic trees, prunings and malformed cells.",
+        text="Lean proves (Proofs/CellSpec.lean, 750 lines) that for every spec-valid tree with pruned branches of any mask 1..7, library cells, Merkle proofs/updates in any nesting, the model of the constructor succeeds and reports exactly the spec's level mask and per-level hash/depth at every level (loop invariant over calculate_hashes vs. level recursion of the spec); pruning invariance is proved for ALL Merkle depths (Proofs/Prune.lean, c02_prune_invariant_spec / c02_prune_invariant): if t' is t with any set of subtrees replaced by pruned branches of mask (mask s % 2^(d-1)) | 2^(d-1) carrying hashAt/depthAt s l for the significant l < d (d grows by one under every Merkle cell), then for every l < d hash, depth and the mask bits below l of t' are those of t (d = 1: the level-0 hash of every enclosing cell is unchanged), with no assumption on the hash function; validity of the pruned tree is DERIVED (Proofs/PruneWF.lean, c02_prune_valid): for a spec-valid t at Merkle depth d >= 1 whose level mask is below 2^(d-1) (d = 1: a level-0 tree) every pruning t' is spec-valid again (pruned cells have 16+272k <= 832 bits, mask 1..7, no refs; at every level t' is at most as deep as t, so the 1023 depth limit is kept), hence constructible, and the model-level statement c02_prune_invariant / c02_prune_level0 (Cell.info: get_hash/get_depth/level_mask) assumes spec-validity of t only; and it is tested through the library. Tie: correspondence library = model = Lean spec = independent Python spec on generated exotic trees, prunings and malformed cells.",
         level_note='Trusted: Lean kernel, Spec/Cell.lean as the TON rule (cross-checked against an independent Python transcription on every run), Model/Cell.lean as a hand transcription of the code (sampled correspondence), the harness.',
         technique='Lean 4 refinement proof (hand model) + differential correspondence with the library',
     ),
